@@ -329,12 +329,10 @@ Section OperatorOrder.
     intros HP. unfold hist_step.
     apply flat_map_ext. intros g.
     pose proof (step_buckets_perm idx g vec vec' HP) as P.
-    destruct (step_buckets V idx g vec) as [|b1 [|b2 bs]] eqn:E1.
+    destruct (step_buckets V idx g vec) as [|b1 bs] eqn:E1.
     - apply Permutation_nil in P. rewrite P. reflexivity.
-    - apply Permutation_length_1_inv in P. rewrite P. reflexivity.
-    - destruct (step_buckets V idx g vec') as [|c1 [|c2 cs]] eqn:E2.
+    - destruct (step_buckets V idx g vec') as [|c1 cs] eqn:E2.
       + apply Permutation_sym, Permutation_nil in P. discriminate.
-      + apply Permutation_sym, Permutation_length_1_inv in P. discriminate.
       + destruct q as [qv|]; [|reflexivity]. f_equal. f_equal.
         apply (bucket_quantile_perm V o pinf ninf lt_irr lt_trans lt_tot eqb_eq add_comm add_assoc). exact P.
   Qed.
@@ -393,21 +391,16 @@ Proof.
   assert (G : forall l, NoDup l ->
             NoDup (map fst (flat_map (fun g => match step_buckets V idx g vec with
                                                | [] => []
-                                               | [_] => [(g, nanv o)]
                                                | bs => [(g, match q with Some qv => bucket_quantile V o pinf ninf qv bs | None => nanv o end)]
                                                end) l)) /\
             forall e, In e (flat_map (fun g => match step_buckets V idx g vec with
                                                | [] => []
-                                               | [_] => [(g, nanv o)]
                                                | bs => [(g, match q with Some qv => bucket_quantile V o pinf ninf qv bs | None => nanv o end)]
                                                end) l) -> In (fst e) l).
   { induction l as [|g l IH]; intros Hnd; simpl; [split; [constructor|intros e []]|].
     inversion Hnd as [|? ? Hn Hnd']; subst. destruct (IH Hnd') as [IH1 IH2].
-    destruct (step_buckets V idx g vec) as [|b1 [|b2 bs]]; simpl.
+    destruct (step_buckets V idx g vec) as [|b1 bs]; simpl.
     - split; [exact IH1|]. intros e He. right. apply IH2. exact He.
-    - split.
-      + constructor; [|exact IH1]. intros Hin. apply in_map_iff in Hin. destruct Hin as [e [Ee He]]. apply IH2 in He. rewrite Ee in He. contradiction.
-      + intros e [<-|He]; [left; reflexivity|right; apply IH2; exact He].
     - split.
       + constructor; [|exact IH1]. intros Hin. apply in_map_iff in Hin. destruct Hin as [e [Ee He]]. apply IH2 in He. rewrite Ee in He. contradiction.
       + intros e [<-|He]; [left; reflexivity|right; apply IH2; exact He]. }
